@@ -26,7 +26,9 @@ def main():
     base, per_mb = float(sys.argv[3]), float(sys.argv[4])
     files = sys.argv[5:]
     resource.setrlimit(resource.RLIMIT_AS, (mem, mem))
-    logging.disable(logging.CRITICAL)
+    # the library's own default logging configuration (root logger at WARNING, records formatted by the last-resort handler): what a
+    # program that simply calls ReplayParser gets. The text itself goes nowhere.
+    sys.stderr = open(os.devnull, 'w')
     import replay_parser
     # the limit is on CPU time of this process (immune to load on the machine); a wall-clock limit 8x as long catches a parser that sleeps
     signal.signal(signal.SIGPROF, on_alarm)
@@ -40,6 +42,11 @@ def main():
         cpu0 = time.process_time()
         signal.setitimer(signal.ITIMER_PROF, limit)
         signal.setitimer(signal.ITIMER_REAL, 8 * limit)
+        # the timers only fire between byte codes: a loop inside one C call (hashing, formatting) is ended by the kernel instead
+        # (SIGXCPU kills the worker; the parent names the file that was being parsed)
+        soft = int(time.process_time() + 2 * limit + 10)
+        hard = resource.getrlimit(resource.RLIMIT_CPU)[1]
+        resource.setrlimit(resource.RLIMIT_CPU, (soft if hard == resource.RLIM_INFINITY else min(soft, hard), hard))
         try:
             info = replay_parser.ReplayParser(path, strict=(mode == 'strict')).get_info()
             rec['outcome'] = 'result'
